@@ -14,7 +14,9 @@ Open Scope Z_scope.
 Definition structure_side : bool :=
   vs_recurses_and && vs_recurses_or && vs_recurses_flat_filter && vs_recurses_vamana_filter
   && vs_recurses_text_filter && vs_checks_flat_length && vs_checks_vamana_length
-  && ccm_checks_flat_length && ccm_checks_vamana_length && ccm_nested_needs_map.
+  && ccm_checks_flat_length && ccm_checks_vamana_length && ccm_nested_needs_map
+  (* the validated value is the value the dispatcher reaches: both resolve the property by the nested walk *)
+  && ccm_resolves_by_nested_walk && dispatch_resolves_by_query.
 Lemma structure_side_ok : structure_side = true. Proof. reflexivity. Qed.
 
 Definition schema_side : bool :=
@@ -407,6 +409,9 @@ Proof.
   unfold check_compatible in H. rewrite forallb_forall in H.
   unfold write_reach. apply Forall_flat_map. rewrite Forall_forall. intros [k iv] Hin.
   specialize (H _ Hin). cbn [fst snd] in *.
+  unfold ccm_value in H.
+  replace ccm_resolves_by_nested_walk with true in H by (symmetry; assumption).
+  replace dispatch_resolves_by_query with true by (symmetry; assumption). cbn iota.
   unfold dim_of.
   destruct (pval_of k p) as [| |n af ast| | | | | |] eqn:E;
     try (destruct (if seq (iv_type iv) "vectorFlat" then _ else _); apply Forall_nil).
@@ -427,6 +432,7 @@ Lemma write_dims : forall s p, validate_ischema s = true ->
 Proof.
   intros s p W. unfold write_reach. apply Forall_flat_map. rewrite Forall_forall. intros [k iv] Hin.
   cbn [fst snd].
+  generalize (if dispatch_resolves_by_query then pval_of k p else POther). intros pv.
   assert (Wi : validate_ivalue iv = true).
   { pose proof schema_side_ok as SS. unfold schema_side in SS. split_side SS.
     unfold validate_ischema in W. rewrite ?gate_true in W by assumption.
@@ -434,10 +440,10 @@ Proof.
   unfold dim_of.
   destruct (seq (iv_type iv) "vectorFlat") eqn:Tf.
   { destruct (iv_flat iv) as [q|] eqn:E; cbn; [|constructor].
-    destruct (pval_of k p); try constructor; [|constructor]. cbn. apply flat_dim_doc. eapply ivalue_flat_dim; eassumption. }
+    destruct pv; try constructor; [|constructor]. cbn. apply flat_dim_doc. eapply ivalue_flat_dim; eassumption. }
   destruct (seq (iv_type iv) "vectorVamana") eqn:Tv.
   { destruct (iv_vamana iv) as [q|] eqn:E; cbn; [|constructor].
-    destruct (pval_of k p); try constructor; [|constructor]. cbn. apply vamana_dim_doc. eapply ivalue_vamana_dim; eassumption. }
+    destruct pv; try constructor; [|constructor]. cbn. apply vamana_dim_doc. eapply ivalue_vamana_dim; eassumption. }
   constructor.
 Qed.
 
